@@ -117,6 +117,8 @@ def surfaces(draw, small=False):
 _coord = st.one_of(gens.nice(-3.0, 3.0, 4), gens.nice(0.0, 1.0, 4))
 _npts = st.sampled_from([1, 2, 3, 3, 7])
 _kint = st.integers(-3, 3)
+# order of the interpolation modes queried on the one object (the first entry is the historical order)
+_modes = st.sampled_from([[True, False], [True, False], [False, True], [False, True, False], [True, False, True, False]])
 
 
 @st.composite
@@ -125,16 +127,45 @@ def queries(draw, n=None):
     return [[draw(_coord), draw(_coord)] for _ in range(n)]
 
 
+# ---- object history of a GammaSurface: other data loaded into the existing object (set / model), queried again
+_route = st.sampled_from(['set', 'set', 'model_str', 'model_dm', 'model_file'])
+_small_surfaces = surfaces(small=True)
+
+
+@st.composite
+def reload_history(draw):
+    """None (half of the cases) or: load a second surface into the same object, optionally load the first one back"""
+    if draw(_bool):
+        return None
+    return {'surf2': draw(_small_surfaces), 'route': draw(_route), 'back': draw(_bool), 'back_route': draw(_route)}
+
+
+_qstep = st.fixed_dictionaries({'smooth': _bool,
+                                'reload': st.sampled_from([None, None, 'self_set', 'self_model', 'swap_set', 'swap_model'])})
+
+
+@st.composite
+def query_history(draw):
+    """None (half of the cases) or 1-3 further rounds of the same queries on the same object: other interpolation mode,
+    the held data loaded again (set / model), the other surface loaded into the object (and back on the next swap)"""
+    if draw(_bool):
+        return None
+    seq = draw(st.lists(_qstep, min_size=1, max_size=3))
+    s2 = draw(_small_surfaces) if any((t['reload'] or '').startswith('swap') for t in seq) else None
+    return {'seq': seq, 'surf2': s2}
+
+
 @st.composite
 def interp_cases(draw):
-    return {'surf': draw(surfaces()), 'aslist': draw(_bool), 'probe': draw(st.integers(0, 10 ** 6))}
+    return {'surf': draw(surfaces()), 'aslist': draw(_bool), 'probe': draw(st.integers(0, 10 ** 6)),
+            'hist': draw(reload_history())}
 
 
 @st.composite
 def periodic_cases(draw):
     q = draw(queries())
     return {'surf': draw(surfaces()), 'q': q, 'k': [[draw(_kint), draw(_kint)] for _ in q],
-            'scalar': draw(_bool), 'aslist': draw(_bool)}
+            'scalar': draw(_bool), 'aslist': draw(_bool), 'modes': draw(_modes)}
 
 
 _pq = st.integers(-2, 2)
@@ -157,7 +188,7 @@ def coords_cases(draw):
             M = [[1, 1], [0, 1]]
         alt = M
     return {'surf': s, 'q': q, 'scalar': draw(_bool), 'aslist': draw(_bool), 'xv': xv, 'alt': alt,
-            'smooth': draw(_bool)}
+            'smooth': draw(_bool), 'hist': draw(query_history())}
 
 
 @st.composite
@@ -165,7 +196,9 @@ def model_cases(draw):
     return {'surf': draw(surfaces(small=draw(_bool))), 'q': draw(queries(7)), 'fmt': draw(st.sampled_from(['json', 'xml'])),
             'eunit': draw(st.sampled_from([None, 'mJ/m^2', 'eV/angstrom^2', 'J/m^2'])),
             'lunit': draw(st.sampled_from([None, 'angstrom', 'nm'])),
-            'via': draw(st.sampled_from(['str', 'dm', 'file']))}
+            'via': draw(st.sampled_from(['str', 'dm', 'file'])),
+            # load into an object that already holds (and has answered queries on) other data
+            'into': draw(_small_surfaces) if draw(_bool) else None}
 
 
 # ----------------------------------------------------------------------------- Peierls-Nabarro
@@ -244,7 +277,44 @@ def pn_cases(draw, nmax=401):
             's': draw(st.sampled_from([2.0, -1.0, 0.5, 3.0]))}
 
 
+# ---- object history of an SDVPN: further evaluations on the same object
+# grid of a step relative to the evaluation before it: 'spacing' same number of points, other spacing; 'length' other
+# number of points; 'same' the same x, other disregistry; 'shift' same points and spacing, translated; 'back' the first
+# (x, disregistry) again.  via: how (x, disregistry) reach the object.  chg: settings changed through the setters first.
+_grid_kind = st.sampled_from(['spacing', 'spacing', 'spacing', 'length', 'same', 'shift', 'back'])
+_via = st.sampled_from(['args', 'args', 'kw', 'setter', 'x_arg', 'd_arg'])
+_chg_keys = st.lists(st.sampled_from(['tau', 'alpha', 'beta', 'cutoff', 'fullstress', 'cdiffelastic', 'cdiffsurface',
+                                      'cdiffstress']), min_size=1, max_size=3, unique=True)
+_nsteps = st.sampled_from([1, 2, 2, 3, 3])
+
+
+@functools.lru_cache(maxsize=None)
+def _profiles(nmax):
+    return pn_profiles(nmax=nmax)
+
+
+@st.composite
+def pn_steps(draw, nmax=401):
+    steps = []
+    for _ in range(draw(_nsteps)):
+        chg = None
+        if draw(st.integers(0, 2)) == 0:
+            full = draw(pn_settings())
+            chg = {k: full[k] for k in draw(_chg_keys)}
+        steps.append({'grid': draw(_grid_kind), 'prof': draw(_profiles(nmax)), 'via': draw(_via), 'chg': chg})
+    return steps
+
+
+@st.composite
+def pn_hist_cases(draw):
+    """pn_cases plus, for half of them, 1-3 further evaluations on the same SDVPN object"""
+    c = draw(pn_cases())
+    c['hist'] = draw(pn_steps(200)) if draw(_bool) else []
+    return c
+
+
 _method = st.sampled_from(['Powell', 'Powell', 'Powell', 'Nelder-Mead', 'L-BFGS-B'])
+_pre_grid = st.sampled_from(['spacing', 'spacing', 'length', 'same', 'shift'])
 
 
 @st.composite
@@ -277,6 +347,13 @@ def solve_cases(draw):
     c['method'] = meth
     c['options'] = opt
     c['default_method'] = meth == 'Powell' and draw(_bool)
+    # history around the solve (two thirds of the cases): an energy evaluation with another (x, disregistry) given as
+    # arguments before the solve (after or before the solve's own x/disregistry are stored), the same again after it;
+    # the settings reach the object through the constructor, the attribute setters or solve's keyword arguments
+    c['hist'] = None
+    if draw(st.integers(0, 2)) > 0:
+        c['hist'] = {'grid': draw(_pre_grid), 'prof': draw(_profiles(21)), 'stored_first': draw(_bool),
+                     'post': draw(_bool), 'settings_via': draw(st.sampled_from(['ctor', 'setters', 'solve_kw']))}
     return c
 
 
